@@ -410,6 +410,19 @@ def judge (_id : String) (lines : Array String) : Verdict := Id.run do
     match opT with
     | ["final", _, _] => some (parseObsIds obs)
     | _ => none)
+  -- a case with loopback nodes (of stream or batch tasks) anywhere: EVERY write is replayed point by point through `schedule`, so
+  -- that the per-sink cursors count every recorded point from the first operation on (a write replayed before the first
+  -- loopback node appeared used to leave them at 0: later looped points then never "fitted" and were all placed at the end)
+  let loopCase : Bool := lines.toList.any (fun l =>
+    match (splitObs (tokens l)).1 with
+    | "bloop" :: _ => true
+    | [v, _, _, froms] => (v == "start" || v == "startfail") && (froms.splitOn ",").any (fun f => (splitBar f).length == 7)
+    | _ => false)
+  -- ids of the stream tasks of the case (a batch task of a `bloop` must not reuse one: they share tm.tasks)
+  let streamIds : List String := lines.toList.filterMap (fun l =>
+    match (splitObs (tokens l)).1 with
+    | [v, id, _, _] => if v == "start" || v == "startfail" then some id else none
+    | _ => none)
   let sinkObs : SinkObs := lines.toList.filterMap (fun l =>
     let (opT, obs) := splitObs (tokens l)
     match opT with
@@ -501,6 +514,9 @@ def judge (_id : String) (lines : Array String) : Verdict := Id.run do
       let some L := parseLoop loop | return .badop l
       let some bname' := unesc bname | return .badop l
       let some pts := parsePoints pts | return .badop l
+      -- well-formedness (also of shrunk cases): a valid loopback node, not into the batch task's own pair, an id no stream task uses
+      if !L.valid || bname' == "" || (L.db == "bd" && L.rp == "autogen") || streamIds.contains id then
+        return .badop s!"ill-formed bloop (invalid loopback node, or the id of a stream task): {l}"
       if obs != ["ok"] && st.hung.isNone then st := { st with hung := some s!"bloop: model ok observed {" ".intercalate obs}" }
       if L.name != "" then st := addBr st "batch-loop-with-measurement-property"
       st := { st with bpend := st.bpend ++ pts.map (fun r => (.batch id' L bname' [r], L.batchPoint bname' r)) }
@@ -574,7 +590,7 @@ def judge (_id : String) (lines : Array String) : Verdict := Id.run do
           continue
         match op with
         | .write db rp pts =>
-          if !st.sources.isEmpty then
+          if loopCase then
             -- loopback nodes exist: the points of the call are forked one by one, interleaved with what is written back
             if obs != ["ok"] && st.hung.isNone then
               st := { st with hung := some s!"{" ".intercalate (opT.take 2)}: model ok observed {" ".intercalate obs}" }
